@@ -43,6 +43,7 @@ def run_sat(case):
         tr["truncated"] = True
     out.append(ev_ret)
     tr["events"] = out
+    tr.setdefault("truncated", False)
     tr["internal_events"] = len(out) - 1
     return tr
 
@@ -112,6 +113,20 @@ def gen_random(rng, n, big=True):
             c["assumptions"] = []
         cases.append(c)
     return cases
+
+
+def gen_budget(rng, n):
+    """hard formulas with a small conflict budget that falls inside runs of back-to-back conflicts"""
+    out = []
+    for _ in range(n):
+        if rng.random() < 0.5:
+            p = rng.choice([4, 5, 6])
+            cls = pigeonhole(p, p - 1)
+        else:
+            cls = threshold_3sat(rng, rng.randint(14, 22))
+        out.append({"clauses": cls, "assumptions": [], "limit": 1, "max_conflicts": rng.randint(1, 40), "max_restarts": 10000,
+                    "luby_factor": rng.choice([1, 100, 100])})
+    return out
 
 
 GRID = [
